@@ -28,8 +28,7 @@ Definition sort_set (l : list N) : list N := fold_right insert [] l.
    dotted components ("core" = 1, "shared.core" / "clients.core" = 2, "a.b.core" = 3 ...);
    [core_inside_client = Some c] when the core package's leading components are the client
    package c (e.g. "c1.core", "clients.alpha.core"), so that c's directory contains the core. *)
-Record layout := { core_depth : nat; core_inside_client : option str;
-                   core_gap : bool (* the core lies two or more packages below that client's directory ("c1.x.core") *) }.
+Record layout := { core_depth : nat; core_inside_client : option str }.
 
 (* _is_shared_core:  project_root in core_path.parents — the core lies strictly below the project
    root, at any depth (the root has depth 0) *)
@@ -42,10 +41,9 @@ Record world := {
   aliases  : option (list N);   (* classes in exception_aliases.py, as codes; None = core not emitted *)
   clients  : reg;               (* generated client packages -> codes whose classes they import from the core *)
   specs    : reg;               (* generated client packages -> [signature] of the call that generated them *)
-  claimed  : list str;          (* clients for which some generate call has returned successfully *)
-  chain    : bool               (* the packages between the hosting client's directory and the core carry an __init__.py *)
+  claimed  : list str           (* clients for which some generate call has returned successfully *)
 }.
-Definition init : world := {| registry := None; aliases := None; clients := []; specs := []; claimed := []; chain := false |}.
+Definition init : world := {| registry := None; aliases := None; clients := []; specs := []; claimed := [] |}.
 
 (* g_core_given = false: generate() is called WITHOUT core_package and resolves it to <client>.core itself
    (only possible for the client whose directory contains the core).  The registry treats both alike; the
@@ -88,14 +86,9 @@ Definition step_out_with (l : layout) (ex : bool) (w : world) (g : gen_call) : w
     let ok := amem c (clients w)
               && match alookup c (specs w) with Some cs => codes_eqb cs (signature g) | None => false end
               && opt_eqb codes_eqb (aliases w)
-                   (Some (union_codes (aset (reg_or_empty (registry w)) c (errs_of g))))
-              (* F09f: the __init__.py of the packages between this client's directory and a core nested deeper
-                 inside it is written only by the direct path of ANOTHER client (the __init__.py loop for the
-                 core's ancestors, skipped when the core is inside the output directory) and never in the
-                 temporary tree: once it exists, the rerun reports "Only in existing output: x/__init__.py" *)
-              && negb (inside l c && core_gap l && chain w) in
+                   (Some (union_codes (aset (reg_or_empty (registry w)) c (errs_of g)))) in
     ({| registry := registry w; aliases := aliases w; clients := clients w; specs := specs w;
-        claimed := if ok then add_str c (claimed w) else claimed w; chain := chain w |}, ok)
+        claimed := if ok then add_str c (claimed w) else claimed w |}, ok)
   else
     (* direct path: shutil.rmtree(out_dir) when it exists — this takes the core with it when the
        core lives inside this client's directory, but the registry file is read before the
@@ -105,10 +98,7 @@ Definition step_out_with (l : layout) (ex : bool) (w : world) (g : gen_call) : w
     let reg1 := if is_shared l then Some (aset (reg_or_empty reg0) c (errs_of g)) else reg0 in
     let al := if is_shared l then union_codes (reg_or_empty reg1) else errs_of g in
     ({| registry := reg1; aliases := Some al; clients := aset (clients w) c (imports_of g);
-        specs := aset (specs w) c (signature g); claimed := add_str c (claimed w);
-        (* rmtree of the hosting client's directory removes those __init__.py files and its own direct path
-           does not write them again; any other client's direct path writes them *)
-        chain := negb (inside l c) |}, true).
+        specs := aset (specs w) c (signature g); claimed := add_str c (claimed w) |}, true).
 
 Definition step_out (l : layout) (w : world) (g : gen_call) : world * bool :=
   step_out_with l (dir_exists l w (g_client g)) w g.
